@@ -30,8 +30,9 @@ if os.path.isdir(_deps) and _deps not in sys.path:
     sys.path.append(_deps)
 
 
-class HarnessError(Exception):
-    """Something is wrong with the machinery, not with the code under test (exit code 2)."""
+class HarnessError(BaseException):
+    """Something is wrong with the machinery, not with the code under test (exit code 2).
+    A BaseException so that Hypothesis lets it through instead of shrinking it as a failure."""
 
 
 def load():
